@@ -142,3 +142,11 @@ Example C18_insert_nonvacuous :
   insert_supported (Some [[VInt 7]; [VInt 9]]%Z) 2 = true /\ insert_supported None 1 = true
   /\ go_pk_idx [[false; true; false]; [true; true; true]; [false; false; true]] 1 = [Some 0; Some 2; None]%Z.
 Proof. repeat split; vm_compute; reflexivity. Qed.
+
+Definition ex_set_body (r : row) : row := match r with [i; n; _] => [i; n; VInt 7%Z] | _ => r end.
+Example C18_upsert_nonvacuous :
+  at_upsert [0] [0; 1; 2] false [[VInt 2]]%Z ex_set_body [([VInt 9], [VInt 9; VNull; VInt 1])]%Z ex_tbl
+  = Ok [([VInt 1], [VInt 1; VStr []; VInt 10]); ([VInt 2], [VInt 2; VNull; VInt 7]); ([VInt 3], [VInt 3; VNull; VInt 30]); ([VInt 9], [VInt 9; VNull; VInt 1])]%Z
+       [([VInt 2], [VInt 2; VNull; VInt 20])]%Z
+       [([VInt 2], [VInt 2; VNull; VInt 7]); ([VInt 9], [VInt 9; VNull; VInt 1])]%Z.
+Proof. vm_compute. reflexivity. Qed.
